@@ -106,6 +106,8 @@ def _roll_oracle(chk, name, kw, g, rng, other, box):
     # the grid lines in rolling direction are whatever the roll reports: given explicitly, supplied by a plugin registered after import, or read
     # before the contact length became known - the surface heights must be laid out on THOSE lines
     steps += [('explicit-grid', None), ('plugin-grid', None), ('x-then-contact', size * rng.uniform(0.3, 1.2))]
+    if other is not None:
+        steps += [('display-then-groove', None)]
     g_first = g
     plugin = None
     for step, (nominal, cl) in enumerate(steps):
@@ -113,7 +115,17 @@ def _roll_oracle(chk, name, kw, g, rng, other, box):
             plugin.hook.remove_function(plugin)
             box.remove(plugin)
             plugin = None
-        if nominal in ('explicit-grid', 'plugin-grid', 'x-then-contact'):
+        if nominal == 'display-then-groove':
+            # a fresh roll carrying ANOTHER groove is only displayed (nothing read), then gets this groove: it describes the groove it has now
+            from common import look_at
+            g = g_first
+            size = max(g.usable_width, g.depth)
+            nominal, cl = size * rng.uniform(3, 8), None
+            roll = Roll(groove=other, nominal_radius=nominal)
+            look_at(roll, html=False)
+            roll.groove = g
+            data = dict(data, nominal_radius=nominal, contact_length=None, history=f"fresh roll built with {type(other).__name__}, displayed (repr, __attrs__), then given this groove")
+        elif nominal in ('explicit-grid', 'plugin-grid', 'x-then-contact'):
             g = g_first
             size = max(g.usable_width, g.depth)
             tag, nominal = nominal, size * rng.uniform(3, 8)
@@ -138,6 +150,8 @@ def _roll_oracle(chk, name, kw, g, rng, other, box):
             g = other if nominal == 'swap-groove' else g_first
             roll.surface_y      # make sure the grid and the contour line were read before the swap
             roll.contour_line
+            from common import look_at
+            look_at(roll, html=False)      # ... and the roll was displayed (repr, __attrs__, rich repr): looking computes nothing that outlives the groove
             roll.groove = g
             roll.reevaluate_cache()
             nominal, cl = roll.nominal_radius, None
@@ -189,6 +203,19 @@ def _roll_oracle(chk, name, kw, g, rng, other, box):
         got = roll.surface_interpolation(sx[ix], sz[iz])
         if got.shape != (len(iz), len(ix)) or np.max(np.abs(got - sy[np.ix_(iz, ix)])) > tol:
             return chk.fail('interpolation-nodes', f"{name}: surface_interpolation does not reproduce the grid at its nodes", data)
+        # query positions carried by integer types (the high point line z = 0 typed as 0, np.int64(0), [0]; whole-number x): the same surface
+        zc = float(sz[len(sz) // 2]) if len(sz) % 2 else 0.0
+        if abs(zc) <= tol:
+            ref0 = np.ravel(roll.surface_interpolation(sx[ix], 0.0))
+            for zi in (0, np.int64(0), [0], np.zeros(1, dtype=int)):
+                alt = np.ravel(roll.surface_interpolation(sx[ix], zi))
+                if alt.shape != ref0.shape or np.max(np.abs(alt - ref0)) > tol:
+                    return chk.fail('interpolation-types', f"{name}: surface_interpolation(x, {zi!r}) (z of type {type(zi).__name__}) differs from surface_interpolation(x, 0.0) "
+                                    f"by {np.max(np.abs(alt - ref0)) if alt.shape == ref0.shape else 'shape'}", data)
+            alt = np.ravel(roll.surface_interpolation(0, np.asarray(sz[iz])))
+            ref1 = np.ravel(roll.surface_interpolation(0.0, np.asarray(sz[iz])))
+            if alt.shape != ref1.shape or np.max(np.abs(alt - ref1)) > tol:
+                return chk.fail('interpolation-types', f"{name}: surface_interpolation(0, z) differs from surface_interpolation(0.0, z)", data)
         xs = np.sort(np.array([rng.uniform(sx[0], sx[-1]) * 0.6 for _ in range(5)]))
         zq = np.sort(np.array([rng.uniform(sz[0], sz[-1]) * 0.95 for _ in range(5)]))
         a = roll.surface_interpolation(xs, zq)
